@@ -1,7 +1,7 @@
 From Coq Require Import Extraction ExtrOcamlBasic ExtrOcamlString.
-From Oras Require Import Base.Prelude Generated.GC01 Model.CopySpec Model.CopyTop Model.CopyOpt.
+From Oras Require Import Base.Prelude Generated.GC01 Model.CopySpec Model.CopyTop Model.CopyOpt Model.CopyCancel.
 Extraction Language OCaml.
 (* effective concurrency with the default re-read from copy.go *)
 Definition eff_K_gen : Z -> nat := eff_K defaultConcurrency.
-Extraction "xc01.ml" step step_opt init copy_result present_nodes inflight_src inflight_dst active eff_K_gen
+Extraction "xc01.ml" step step_opt cstep_opt init copy_result present_nodes inflight_src inflight_dst active eff_K_gen
   eff_ref prologue select_manifest N.of_nat N.to_nat.
